@@ -142,6 +142,15 @@ def gen_cases(rng, tier):
                 return ("comp", q(rng.randint(1, 5)))
             (lt, lv), (rt, rv) = side(), side()
             bc.append(dict(lt=lt, lv=lv, rt=rt, rv=rv))
+        saturate = E == 1 and rng.random() < 0.12
+        if saturate:
+            # upper composition limit: a nearly pure solute fed by an inward flux (or drained by an outward one: lower limit)
+            hi = rng.random() < 0.7
+            v = q(rng.choice([14, 15])) if hi else q(rng.choice([1, 2]))
+            build = [[dict(k="linear", l=v, r=v)]]
+            J = Fr(rng.choice([1, 2, 4]), 4) * (1 if hi else -1)
+            bc = [rng.choice([dict(lt="flux", lv=J, rt="flux", rv=Fr(0)), dict(lt="flux", lv=Fr(0), rt="flux", rv=-J),
+                              dict(lt="flux", lv=J, rt="flux", rv=-J)])]
         onestep = it == "rk4" or rng.random() < 0.25
         if E == 1:
             A = [[Fr(rng.choice([1, 2]))]]
